@@ -28,7 +28,7 @@ var shapeKeys = []string{"a", "b", "c", "d", "k", "list", "sub", "items"}
 var oddKeys = []string{"doc", "object", "element", "-id", "#text", "K", "k1", "ключ", "a-b", "_seq", "#seq", "-", "A", "a]", "Doc", "k ", " k", "k\t", "\u00a0k", "k\u2028", "0", "1", "k%d",
 	// keys that a path, sub-key or pair language with a few more features could mistake for syntax: a trailing backslash
 	// (an escape?), a leading @ $ ~ = (attribute shorthand, reference, operator?), all digits (an index?)
-	"k\\", "@type", "$ref", "~k", "=k", "2023", "a,b", "k?"}
+	"k\\", "@type", "$ref", "~k", "=k", "2023", "a,b", "k?", "!x"}
 
 func drawFieldKey(t *rapid.T) string {
 	if rapid.IntRange(0, 11).Draw(t, "oddkey") == 0 {
